@@ -871,7 +871,12 @@ class CallMixin:  # pylint:disable=too-many-public-methods
                 return [(k, v) for k, v in r.items()]
             if a == "update":
                 if args:
-                    r.update(args[0])
+                    if isinstance(args[0], dict):
+                        r.update(args[0])
+                    else:
+                        for pair_ in self.iterate(args[0], node, frame):
+                            k_, v_ = self.iterate(pair_, node, frame)
+                            r[self.hashable(k_, node, frame)] = v_
                 r.update(kwargs)
                 return None
             if a == "pop":
